@@ -50,6 +50,7 @@ func verifCustom() *config.Custom {
 func c23Tx(extra []byte, variant int) *common.VersionedTransaction {
 	tx := common.NewTransactionV5(common.XINAssetId)
 	tx.Extra = extra
+	tx.Inputs = []*common.Input{{Genesis: extra}} // persistable without UTXOs to lock
 	ver := tx.AsVersioned()
 	if variant > 0 {
 		sig := crypto.Signature{byte(variant)}
